@@ -58,6 +58,14 @@ CHECKS = {
    "exhaustive enumeration of choice vectors (all 256 at xi=8), shapes, multiplier inputs, and of every single-field alteration of the consistency-check messages, on the real round-by-round OT / SoftSpoken / rVOLE code",
    "ecbbot and vsot with xi=8: ALL 256 choice bytes x L in {1,2,3} x {k256,p256} x 2 seeds; structured vectors at xi 16/128; SoftSpoken over both base OTs at every admissible small shape incl. (8,16) with all 256 choice bytes; rVOLE (bbot, softspoken) over all inputs {0,1,q-1,mid}^L: receiver message == sender message[choice], the two sender messages differ, outputs sum to the product (math/big); every leaf of the extension's challenge response and of the multiplier's check values (mu, eta, aTilde ...) x mutations (bit flips, zero, neighbouring / other-instance value): the other side must abort at the consistency check; constructors refuse inadmissible shapes.",
    "Single altered leaf; index alphabets for long vectors in quick (all indices in thorough); structured choice vectors above xi=8; Bob's scalar is controlled through his stream.", "DESIGN §5 C09"),
+ "C07": ("SCHED+CT", "exploration",
+   "exhaustive differential enumeration: protocol x party position x run kind (base streams / only party i's stream replaced / all streams identical / all replaced / failing, all-zero, short-read source) x two consecutive sessions, with counting readers on every party's caller-supplied random stream",
+   "For session setup, agree-on-random, Gennaro, Canetti, HJKY, redistribution, Lindell22 (thorough: DKLs23-bbot, Lindell17, base OTs, SoftSpoken, rVOLE) every party i: replacing only i's stream changes i's first randomised message and every joint random value (signature R/s, DKG public key and shares, session id, zero shares) and leaves every other party's first message byte-identical; with identical streams every CBOR leaf of every message and every output is identical (a differing leaf = entropy the caller did not supply); every sampling party's stream is read before its first message leaves; nonce commitments / R / public keys / session ids are pairwise distinct across all runs whose streams differ and across consecutive sessions; a source that fails once at read j makes the party fail (no silent success), an all-zero source gives a refusal or a reproducible degenerate run, short reads change nothing.",
+   "Default schedule/FIFO; sequential errgroup shim (so identical streams give identical messages); statistical quality of randomness is not examined; a reviewed allow-list names message leaves that are deterministic by construction.", "DESIGN §5 C07"),
+ "C05": ("CT", "fault_enumeration",
+   "exhaustive enumeration of VSS x structure x group x dealing kind, and inside each of every share alteration x claimed identity and every verification-vector edit x holder, verdicts predicted by a math/big model M*r",
+   "Feldman and Pedersen VSS over the catalogue (n<=4, incl. non-ideal structures where a holder owns several MSP rows) on k256, BLS12-381 G1, edwards25519 subgroup, for 1..3 combined dealings and special dealer columns: the honest share of every holder under every identity, every coordinate altered (+1, -1, :=0, := every other coordinate of every holder, drop/append), and every verification-vector edit (entry +-G/+H, :=identity, swap, drop/append identity or G) x every holder; the reference reads M and r out of the library, predicts each verdict from lambda' = M*r' (a holder fails exactly when its rows have a non-zero entry in the edited column), and Verify / NewBaseShard must agree; V1*V2(*V3) verifies exactly share1+share2(+share3); ReconstructInTheExponent over every qualified subset == V[0].",
+   "Trusts math/big and the Pedersen trapdoor key the harness knows; n > 4 and cancelling share+vector forgeries (need a discrete log) are outside.", "DESIGN §5 C05"),
 }
 NOT_YET = {}
 for i in range(1, 21):
